@@ -35,7 +35,8 @@
    any offset, fresh list of any capacity: every value counted (also those that do not fit), value j = what the value parser
    reports for text j at its own offset, the header-value span runs from the first byte of the first value to the last byte
    of the last one; commas inside quoted strings do not split.
-   PARTIAL: white space inside quoted strings, commas inside the brackets, a "*" value, header counts at the list level for the
+   The star value: C09_star_value.
+   PARTIAL: white space inside quoted strings, commas inside the brackets, header counts at the list level for the
    general shapes: render/parse oracle on values, lists and messages (offsets != 0, chunked, reused objects) and correspondence. *)
 From Sipsp Require Import Harness IP4 Numbers Misc NameAddrSpec NameAddrParam ContactSpec Capacity UpperBound NestMsg SigCoherent HdrSpec TokItem NameAddrGen ContactGen.
 Theorem C09_contact_expires_value : forall ds, all_digits ds -> expires_of ds = N.min (dec ds) MaxU32.
@@ -318,6 +319,12 @@ Theorem C09_bare_uri_then_comma : forall h (junk : list byte) n0 (name g y : lis
 Proof. exact nameaddr_bare_comma. Qed.
 Theorem C09_bare_result_means : forall h i0 lu, fB h i0 lu = mkpfrom pf0 (mkpf i0 lu) pf0 false false false h 0 0 pf0 (mkpf i0 lu) EOk 0 FbFIN 0 0 0 0 0.
 Proof. reflexivity. Qed.
+(* the star value *)
+Theorem C09_star_value : forall h (junk sp : list byte) x tail, spaces sp -> is_sp x = false ->
+  let i0 := nnat (length junk) in
+  parse_nameaddr h (junk ++ (42 : byte) :: sp ++ CR :: LF :: x :: tail) i0 pfrom0
+  = Done (i0 + 1 + nnat (length sp) + 2) EOk (mkpfrom pf0 (mkpf i0 1) pf0 true false false h 0 0 pf0 (mkpf i0 1) EOk 0 FbFIN 0 0 0 0 0).
+Proof. exact nameaddr_star_eol. Qed.
 (* ---- the Contact list with general values ------------------------------------------------------------------------------------------------------ *)
 Theorem C09_contact_list_general_values : forall gs (junk sp : list byte) x tail n, gs <> [] -> Forall gv_ok gs -> spaces sp -> is_sp x = false ->
   let i := nnat (length junk) in
